@@ -123,6 +123,29 @@ SeriesClip(s, lo, hi) == IF ~Clippable(s.dt) THEN Unspecified
 FrameClip(f, lo, hi) == IF \E j \in 1..NCols(f) : ~Clippable(f.cols[j].dt) THEN Unspecified
                         ELSE MkFrame(f.index, f.columns, [j \in 1..NCols(f) |-> ClipCol(f.cols[j], lo, hi)], f.name)
 
+(* ---- searchsorted: where values would be inserted into an ascending sequence, as positions or as the labels found there ------------ *)
+(* keys are numbers (compared as rationals) or datetimes of one unit (compared by their ticks); anything else, a missing value or a      *)
+(* sequence that is not ascending leaves the call Unspecified (NumPy's binary search then returns some position)                         *)
+SKeyOK(v) == Tag(v) \in {"i", "f", "d"}
+SKey(v) == IF Tag(v) = "d" THEN <<v[3], 1>> ELSE QOf(v)
+SKeysComparable(xs) == \A i \in 1..Len(xs) : SKeyOK(xs[i]) /\ (Tag(xs[i]) = "d") = (Tag(xs[1]) = "d") /\ (Tag(xs[i]) = "d" => xs[i][2] = xs[1][2])
+SAscending(xs) == \A i \in 1..(Len(xs) - 1) : QLe(SKey(xs[i]), SKey(xs[i + 1]))
+(* the number of members strictly below v (side left) or not above v (side right): the insertion position that keeps the order *)
+SearchPos(xs, v, left) == Cardinality({i \in 1..Len(xs) : IF left THEN QLt(SKey(xs[i]), SKey(v)) ELSE QLe(SKey(xs[i]), SKey(v))})
+(* searched: the ascending sequence; labels: what a position is reported as (loc form: the label there, the fill past the end) *)
+SCanon(v) == IF Tag(v) = "f" /\ v[3] = 1 THEN <<"i", v[2]>> ELSE v          \* the dtype of the reported labels is not part of the statement: whole floats as integers
+SearchOne(searched, labels, v, left, loc, fill) ==
+  LET p == SearchPos(searched, v, left) IN IF ~loc THEN <<"i", p>> ELSE IF p = Len(labels) THEN SCanon(fill) ELSE SCanon(labels[p + 1])
+SearchSorted(searched, labels, q, many, left, loc, fill) ==
+  IF ~SKeysComparable(searched \o q) \/ ~SAscending(searched) THEN Unspecified
+  ELSE IF many THEN [k |-> "array", dt |-> <<"any", 0>>, vals |-> [i \in 1..Len(q) |-> SearchOne(searched, labels, q[i], left, loc, fill)]]
+  ELSE Elem(SearchOne(searched, labels, q[1], left, loc, fill))
+(* Series: the VALUES are searched and positions are reported as index labels; Index: the labels themselves *)
+SeriesSearchSorted(s, on, q, many, left, loc, fill) ==
+  IF Len(q) = 0 THEN Unspecified
+  ELSE IF Len(s.index) = 0 /\ many /\ loc THEN Unspecified          \* as built: IndexError (the labels are indexed at position 0 before the fill is put in); the element form returns the fill
+  ELSE SearchSorted(IF on = "values" THEN s.vals ELSE s.index, s.index, q, many, left, loc, fill)
+
 (* ---- hierarchical relabelling: labels of a hierarchical axis are <<"t", <<l1, ..., ld>>>> ---------------------- *)
 AddLevel(l, x) == IF Tag(l) = "t" THEN <<"t", <<x>> \o l[2]>> ELSE <<"t", <<x, l>>>>
 DropOuter(l, k) == LET rest == SubSeq(l[2], k + 1, Len(l[2])) IN IF Len(rest) = 1 THEN rest[1] ELSE <<"t", rest>>
